@@ -93,10 +93,10 @@ CHECKS = {
     ),
     'C14': dict(
         text='Per (depth, delta_depth), for every cell: internal_edge is the closed walk S->E->N->W of the border descendants, the sorted variant is the same set increasing, corner/side helpers match; '
-             'external_edge(_sorted) list exactly the outside cells of the deeper depth sharing a vertex with a border descendant (plane oracle, seams included), without duplicates; the structured variant files '
-             'each under the corner / side it faces.',
+             'the direction tables used to orient the internal side of a neighbour across a base-cell seam are right for every cell and direction (adjacency oracle). '
+             'The assembly of external_edge(_sorted / _struct) from these ingredients against the plane oracle is built (c14_external_*, c14_struct_*) but did not finish within 40 min at 40 GB: tier extended, not claimed.',
         design_ref='DESIGN.md section 5 C14',
-        note='Bounds: (depth, delta) pairs listed in the evidence, delta <= 2 (quick).',
+        note='Bounds: (depth, delta) pairs listed in the evidence, delta <= 2. The external-edge clause of the property is decided only through its ingredients (neighbours by C04, seam direction tables, internal sides); see outside_bounds in the evidence.',
     ),
     'C15': dict(
         text='pack preserves the cell->state map, well-formedness and leaves no four full siblings for every valid sequence of bounded length; to_lower_depth keeps a coarse cell iff something overlapped it and marks '
